@@ -67,7 +67,7 @@ func genCase(t *rapid.T) Case {
 	return c
 }
 
-var pathShape = map[string]bool{"placeholderRepeatedAdjacent": true, "placeholderRepeatedApart": true, "overlappingPaths": true, "placeholderWithoutParam": true, "pathParamNotInTemplate": true}
+var pathShape = map[string]bool{"overlappingPaths3": true, "placeholderRepeatedAdjacent": true, "placeholderRepeatedApart": true, "overlappingPaths": true, "placeholderWithoutParam": true, "pathParamNotInTemplate": true}
 
 func class(format string) *regexp.Regexp {
 	q := regexp.QuoteMeta(format)
@@ -128,7 +128,7 @@ func check(c Case) (out ev.Outcome) {
 		if e != "requiredSatisfiedByAdditionalProperties" {
 			breaking++
 		}
-		if e != "overlappingPaths" && e != "requiredSatisfiedByAdditionalProperties" {
+		if e != "overlappingPaths" && e != "overlappingPaths3" && e != "requiredSatisfiedByAdditionalProperties" {
 			onlyOverlap = false
 		}
 		out.Classes = append(out.Classes, "edit:"+e)
@@ -172,7 +172,7 @@ func check(c Case) (out ev.Outcome) {
 						if !isBreaking {
 							continue
 						}
-						if e == "overlappingPaths" && !strict {
+						if (e == "overlappingPaths" || e == "overlappingPaths3") && !strict {
 							continue
 						}
 						if !anyMatch(exp, o.Errors) {
